@@ -20,6 +20,7 @@
 
 const char *mt_schedule;
 int mt_active;
+int mt_log_idle;
 
 int __real_pthread_create(pthread_t *, const pthread_attr_t *, void *(*)(void *), void *);
 int __real_pthread_join(pthread_t, void **);
@@ -143,7 +144,7 @@ static int runnable(int t)
 	case BLK_WAIT:
 		/* a deliverable pending signal interrupts the kernel wait (the handler runs, the wait re-polls once) */
 		return x->ready(x->ready_ctx) || (x->deadline >= 0 && x->deadline <= vk_clock) ||
-		       (!x->in_signal && (x->sigpending & ~x->sigmask) != 0);
+		       (x->sigpending & ~x->sigmask) != 0;
 	case BLK_JOIN:
 		return th[x->join_target].finished;
 	}
@@ -179,6 +180,8 @@ static int pick(void)
 					best = th[t].deadline;
 			if (best < 0)
 				vk_end("QUIESCENT");
+			if (mt_log_idle)
+				vk_trace("Iq %lld", best);	/* the whole process is at rest until the earliest deadline */
 			if (best > vk_clock)
 				vk_clock = best;
 		}
@@ -267,6 +270,16 @@ static void *trampoline(void *_t)
 	vk_trace("Tx");
 	x->finished = 1;
 	{
+		/* what the kernel had queued for this thread on behalf of the process is taken by another thread */
+		int sg;
+		uint64_t pend = x->sigpending;
+
+		x->sigpending = 0;
+		for (sg = 1; sg < 64; sg++)
+			if (pend & (1ULL << sg))
+				mt_raise(sg, -1);
+	}
+	{
 		int next = pick();
 
 		cur = next;
@@ -329,6 +342,19 @@ static int idx_of(pthread_t t)
 	return -1;
 }
 
+/* a thread that parks in a join reaches no yield point any more: what is pending for it is taken by another thread
+   (the kernel would interrupt the join, run the handler and resume it) */
+static void retarget_pending(int me)
+{
+	uint64_t pend = th[me].sigpending & ~th[me].sigmask;
+	int sg;
+
+	th[me].sigpending &= ~pend;
+	for (sg = 1; sg < 64; sg++)
+		if (pend & (1ULL << sg))
+			mt_raise(sg, -1);
+}
+
 int __wrap_pthread_join(pthread_t thread, void **ret)
 {
 	int me = mt_self();
@@ -343,6 +369,7 @@ int __wrap_pthread_join(pthread_t thread, void **ret)
 	if (!th[t].finished) {
 		th[me].blocked = BLK_JOIN;
 		th[me].join_target = t;
+		retarget_pending(me);
 		block_until_runnable();
 	}
 	vk_trace("Tj %d", t);
@@ -384,6 +411,7 @@ void mt_join_all(void)
 		if (!th[t].finished) {
 			th[me].blocked = BLK_JOIN;
 			th[me].join_target = t;
+			retarget_pending(me);
 			block_until_runnable();
 		}
 	}
@@ -434,6 +462,9 @@ static int do_lock(void *addr, int spin)
 	}
 	locks[li].owner = me;
 	vk_trace("L %s", lock_name(li, nb, sizeof(nb)));
+	/* asynchronous signals do not wait for a convenient place: a pending signal that this thread does not block is
+	   delivered inside the critical section (the library must have blocked what it cannot take there) */
+	deliver_signals();
 	return 0;
 }
 
@@ -503,6 +534,33 @@ int __wrap_pthread_spin_unlock(pthread_spinlock_t *l)
 /* ---- virtual signals ---- */
 #define NSIGV 64
 static void (*sig_handler[NSIGV])(int);
+static uint64_t sig_samask[NSIGV];	/* sa_mask of the installed handler */
+#define ALLSIGS	allsigs()			/* what sigfillset gives (glibc keeps 32 and 33 for itself) */
+
+static uint64_t set_to_bits(const sigset_t *s);
+
+static uint64_t allsigs(void)
+{
+	static uint64_t all;
+
+	if (all == 0) {
+		sigset_t f;
+
+		sigfillset(&f);
+		all = set_to_bits(&f);
+	}
+	return all;
+}
+
+static const char *mask_name(uint64_t b, char *buf, size_t len)
+{
+	if ((b & ALLSIGS) == ALLSIGS)
+		return "all";
+	if ((b & ALLSIGS) == 0)
+		return "none";
+	snprintf(buf, len, "%llx", (unsigned long long)(b & ALLSIGS));
+	return buf;
+}
 
 int __wrap_sigaction(int sig, const struct sigaction *act, struct sigaction *old)
 {
@@ -519,8 +577,15 @@ int __wrap_sigaction(int sig, const struct sigaction *act, struct sigaction *old
 			sig_handler[sig] = NULL;
 		else
 			sig_handler[sig] = act->sa_handler;
-		if (mt_active)
-			vk_trace("Sa %d %s", sig, sig_handler[sig] ? "h" : "d");
+		sig_samask[sig] = set_to_bits(&act->sa_mask);
+		if (mt_active) {
+			char mb[24];
+
+			if (sig_handler[sig])
+				vk_trace("Sa %d h m=%s", sig, mask_name(sig_samask[sig], mb, sizeof(mb)));
+			else
+				vk_trace("Sa %d d", sig);
+		}
 	}
 	return 0;
 }
@@ -531,7 +596,7 @@ int mt_sig_has_handler(int sig)
 }
 
 static uint64_t set_to_bits(const sigset_t *s)
-{
+{	/* (declared above) */
 	uint64_t b = 0;
 	int i;
 
@@ -559,6 +624,7 @@ int __wrap_pthread_sigmask(int how, const sigset_t *set, sigset_t *old)
 		bits_to_set(x->sigmask, old);
 	if (set != NULL) {
 		uint64_t b = set_to_bits(set);
+		uint64_t before = x->sigmask;
 
 		if (how == SIG_BLOCK)
 			x->sigmask |= b;
@@ -566,6 +632,11 @@ int __wrap_pthread_sigmask(int how, const sigset_t *set, sigset_t *old)
 			x->sigmask &= ~b;
 		else
 			x->sigmask = b;
+		if (mt_active && ((x->sigmask ^ before) & ALLSIGS)) {
+			char mb[24];
+
+			vk_trace("Sm %s", mask_name(x->sigmask, mb, sizeof(mb)));
+		}
 		if (mt_active && how != SIG_BLOCK)
 			deliver_signals();
 	}
@@ -578,7 +649,7 @@ void mt_raise(int sig, int thr)
 
 	if (sig <= 0 || sig >= NSIGV)
 		return;
-	if (thr >= 0) {
+	if (thr >= 0 && thr < nthr && th[thr].used && !th[thr].finished && th[thr].blocked != BLK_JOIN) {
 		th[thr].sigpending |= 1ULL << sig;
 		return;
 	}
@@ -603,8 +674,7 @@ static void deliver_signals(void)
 	struct mt_thread *x = &th[mt_self()];
 	int sig;
 
-	if (x->in_signal)
-		return;
+	/* nested deliveries happen when the running handler's mask (sa_mask + the signal itself) lets them through */
 	for (sig = 1; sig < NSIGV; sig++) {
 		uint64_t bit = 1ULL << sig;
 
@@ -614,11 +684,11 @@ static void deliver_signals(void)
 				uint64_t saved = x->sigmask;
 
 				vk_trace("Sd %d", sig);
-				x->in_signal = 1;
-				x->sigmask = ~0ULL;	/* sa_mask is filled by the library */
+				x->in_signal++;
+				x->sigmask = saved | sig_samask[sig] | bit;
 				sig_handler[sig](sig);
 				x->sigmask = saved;
-				x->in_signal = 0;
+				x->in_signal--;
 				vk_trace("Sx %d", sig);
 			} else {
 				vk_trace("Sdfl %d", sig);
@@ -639,8 +709,8 @@ void mt_deliver_now(int sig)
 		return;
 	}
 	vk_trace("Sd %d", sig);
-	x->in_signal = 1;
-	x->sigmask = ~0ULL;
+	x->in_signal = nested + 1;
+	x->sigmask = saved | sig_samask[sig] | (1ULL << sig);
 	sig_handler[sig](sig);
 	x->sigmask = saved;
 	x->in_signal = nested;
@@ -724,7 +794,7 @@ void (*mt_kill_hook)(int pid, int sig);
 void (*mt_fork_hook)(int pid);
 int (*mt_reap_hold)(int pid);		/* wait4 does not report this child's changes yet */
 
-void mt_child_status(int pid, int status)
+int mt_child_status(int pid, int status)
 {
 	int i;
 
@@ -732,8 +802,9 @@ void mt_child_status(int pid, int status)
 		if (child[i].pid == pid && !child[i].reaped && child[i].nq < 16) {
 			child[i].q[child[i].nq++] = status;
 			mt_raise(SIGCHLD, (mt_chld_thr >= 0 && mt_chld_thr < nthr && th[mt_chld_thr].used && !th[mt_chld_thr].finished) ? mt_chld_thr : -1);
-			return;
+			return 1;
 		}
+	return 0;
 }
 
 /* run fn in the context of a forked child of this process (pid differs, atfork child handlers ran) */
@@ -753,10 +824,10 @@ void mt_as_child(void (*fn)(void *), void *arg)
 	saved_mask = x->sigmask;
 	x->sigpending = 0;
 	vpid = next_pid++;
+	vk_trace("Fc %d", vpid);	/* from here to Fx: the child process (its mask changes are its own) */
 	for (i = 0; i < n_atfork; i++)
 		if (af_child[i] != NULL)
 			af_child[i]();
-	vk_trace("Fc %d", vpid);
 	fn(arg);
 	vk_trace("Fx %d", vpid);
 	vpid = saved;
@@ -767,40 +838,63 @@ void mt_as_child(void (*fn)(void *), void *arg)
 			af_parent[i]();
 }
 
+/* wait4: the pid argument (-1 / 0 / < -1 = any child, > 0 = that child) and the options are honoured: a stop is
+   reported only with WUNTRACED, a continuation only with WCONTINUED (a change the caller did not ask for is never
+   reported: it is dropped here); without WNOHANG a call that has live children but nothing to report would block
+   for ever -- the run ends with HANG.  Log: "W4 <pid> <status> o=<n|u|c letters>". */
 pid_t __wrap_wait4(pid_t pid, int *status, int options, struct rusage *ru)
 {
 	int i, live = 0;
+	char ob[8];
+	int on = 0;
 
-	(void)pid;
-	(void)options;
+	if (options & WNOHANG)
+		ob[on++] = 'n';
+	if (options & WUNTRACED)
+		ob[on++] = 'u';
+	if (options & WCONTINUED)
+		ob[on++] = 'c';
+	if (on == 0)
+		ob[on++] = '-';
+	ob[on] = 0;
 	if (ru != NULL)
 		memset(ru, 0, sizeof(*ru));
-	/* the child with the oldest pending change first (creation order breaks ties) */
+	/* the first child in creation order that has a reportable change */
 	for (i = 0; i < nchild; i++) {
-		if (child[i].reaped)
+		if (child[i].reaped || (pid > 0 && child[i].pid != pid))
 			continue;
 		live++;
-		if (child[i].nq > 0 && !(mt_reap_hold != NULL && mt_reap_hold(child[i].pid))) {
+		if (mt_reap_hold != NULL && mt_reap_hold(child[i].pid))
+			continue;
+		while (child[i].nq > 0) {
 			int st = child[i].q[0];
+			int dead = WIFEXITED(st) || WIFSIGNALED(st);
+			int wanted = dead || (st == 0xffff ? (options & WCONTINUED) : (options & WUNTRACED));
 
 			memmove(&child[i].q[0], &child[i].q[1], (child[i].nq - 1) * sizeof(int));
 			child[i].nq--;
-			if (WIFEXITED(st) || WIFSIGNALED(st)) {
+			if (!wanted)
+				continue;
+			if (dead) {
 				child[i].reaped = 1;
 				child[i].nq = 0;
 			}
 			if (status != NULL)
 				*status = st;
-			vk_trace("W4 %d %d", child[i].pid, st);
+			vk_trace("W4 %d %d o=%s", child[i].pid, st, ob);
 			return child[i].pid;
 		}
 	}
 	if (!live) {
-		vk_trace("W4 -1 0");
+		vk_trace("W4 -1 0 o=%s", ob);
 		errno = ECHILD;
 		return -1;
 	}
-	vk_trace("W4 0 0");
+	if (!(options & WNOHANG)) {
+		vk_trace("W4 0 0 o=%s", ob);
+		vk_end("HANG");		/* blocking wait with nothing to report */
+	}
+	vk_trace("W4 0 0 o=%s", ob);
 	return 0;
 }
 
